@@ -110,6 +110,13 @@ def run_case(cs):
     root = os.path.join(d, world.root_name(rng))
     world.write_tree(root, tree)
     os.makedirs(root, exist_ok=True)
+    folder_links = False
+    if rng.random() < 0.1:
+        # links to folders (inside, outside, the parent): neither followed nor part of any directory hash
+        os.makedirs(os.path.join(d, "outside"), exist_ok=True)
+        if world.add_dir_symlinks(rng, root, tree, rng.randint(1, 2), outside=os.path.join(d, "outside")):
+            cs.count("trees_with_folder_symlinks")
+            folder_links = True
     allpat = ignoreref.DEFAULTS + pats
     formats = world.gen_formats(rng, repeat=True)
     if rng.random() < 0.1:
@@ -133,11 +140,12 @@ def run_case(cs):
     # ---------- metamorphic variant on a copy
     rel_kind = rng.choice(["rename", "edit", "permute"])
     work = os.path.join(d, "M")
-    shutil.copytree(root, work)
+    shutil.copytree(root, work, symlinks=True)
     t2 = dict(tree)
     target = None
     if rel_kind == "rename":
-        cand = [k for k in tree if ignoreref.match(allpat, k) is False]
+        # (renaming a folder would leave a relative link to it dangling: with folder links present only files are renamed)
+        cand = [k for k in tree if ignoreref.match(allpat, k) is False and not (folder_links and tree[k] is None)]
         if cand:
             target = rng.choice(cand)
             par = os.path.dirname(target)
